@@ -1,4 +1,4 @@
 package main
 
-func cmdCheck(args []string) int { return 2 }
-func cmdLock(args []string) int  { return 2 }
+func (cc *checkCtx) gatherSweep()                            {}
+func (cc *checkCtx) extraEvidence(ev map[string]interface{}) {}
